@@ -3,6 +3,7 @@ package sim
 import (
 	"fmt"
 	"os"
+	"runtime"
 	"sort"
 	"strings"
 	"unsafe"
@@ -28,9 +29,83 @@ type Run struct {
 	lastU *ecs.CachedFilter // last unregistered filter, valid for an "unregister twice" call
 	lis   *recListener
 	// per-operation observations
-	outcome    string
-	transcript []byte
-	poisoned   bool
+	outcome  string
+	hist     uint64
+	poisoned bool
+	gcEvery  bool
+}
+
+// Hist implements wx.Historian.
+func (r *Run) Hist() uint64 { return r.hist }
+
+func (r *Run) fold(vals ...uint64) {
+	h := r.hist
+	if h == 0 {
+		h = 14695981039346656037
+	}
+	for _, v := range vals {
+		for b := 0; b < 8; b++ {
+			h ^= (v >> (8 * b)) & 0xff
+			h *= 1099511628211
+		}
+	}
+	r.hist = h
+}
+
+func entU(e ecs.Entity) uint64 { return uint64(e.ID())<<32 | uint64(e.Generation()) }
+
+// transcript folds everything observable about the last operation into the running history hash.
+func (r *Run) transcript(op wx.Op, o *obs) {
+	r.fold(uint64(op.K), uint64(uint8(op.A)), uint64(uint8(op.B)), uint64(uint8(op.C)), uint64(uint8(op.D)))
+	for _, e := range o.created {
+		r.fold(1, entU(e))
+	}
+	if o.hasCount {
+		r.fold(2, uint64(o.count))
+	}
+	for _, e := range o.visited {
+		r.fold(3, entU(e))
+	}
+	if r.lis != nil {
+		for i := range r.lis.events {
+			ev := &r.lis.events[i]
+			r.fold(4, entU(ev.e.Entity), uint64(ev.e.EventTypes), uint64(ev.oldRel+1), uint64(ev.newRel+1), entU(ev.e.OldTarget), entU(ev.targetAt))
+			for _, id := range ev.added {
+				r.fold(5, uint64(idNum(id)))
+			}
+			for _, id := range ev.removed {
+				r.fold(6, uint64(idNum(id)))
+			}
+		}
+	}
+	// iteration order of every menu filter, plain and registered
+	targets := []ecs.Entity{{}}
+	for i := range r.m.Slots {
+		targets = append(targets, r.m.Slots[i].H)
+	}
+	for spec := range r.cfg.Filters {
+		ts := targets[:1]
+		if r.cfg.Filters[spec].Rel {
+			ts = targets
+		}
+		for _, t := range ts {
+			r.fold(7, uint64(spec))
+			for _, e := range r.collect(r.build(spec, t)) {
+				r.fold(entU(e))
+			}
+		}
+	}
+	for i := range r.regs {
+		r.fold(8, uint64(i))
+		for _, e := range r.collect(&r.regs[i].cached) {
+			r.fold(entU(e))
+		}
+	}
+	d := r.w.DumpEntities()
+	r.fold(9, uint64(d.Next), uint64(d.Available))
+	for _, a := range d.Alive {
+		r.fold(uint64(a))
+	}
 }
 
 // NewRun creates a fresh world for a scenario.
@@ -412,7 +487,13 @@ func (r *Run) Apply(op wx.Op) wx.Result {
 		r.lis.begin(r.m)
 	}
 	var o obs
+	if r.gcEvery || gcEveryOp {
+		runtime.GC()
+	}
 	pv := r.exec(op, &o)
+	if r.gcEvery || gcEveryOp {
+		runtime.GC()
+	}
 	switch ex.Class {
 	case ClsUnspecified:
 		r.outcome = "unspecified"
@@ -505,6 +586,11 @@ func (r *Run) Apply(op wx.Op) wx.Result {
 			return bad("C15", "reset-locked", "world locked after Reset")
 		}
 	}
+	if r.cfg.Oracles&OTranscript != 0 {
+		if pv := catch(func() { r.transcript(op, &o) }); pv != nil {
+			return bad("", "oracle-panic:"+panicClass(pv), fmt.Sprintf("reading the world through the public API panicked: %v", pv))
+		}
+	}
 	return wx.Result{}
 }
 
@@ -568,6 +654,9 @@ func (r *Run) Check() (f *wx.Failure) {
 // noInv disables the structural invariant oracle (VERIF_NO_INV=1), to demonstrate that defects are also
 // caught through the public API alone.
 var noInv = os.Getenv("VERIF_NO_INV") != ""
+
+// gcEveryOp forces a garbage collection before and after every operation (VERIF_GC_EVERY_OP=1).
+var gcEveryOp = os.Getenv("VERIF_GC_EVERY_OP") != ""
 
 func invClass(s string) string {
 	// keep the words, drop numbers and bracketed details
